@@ -280,8 +280,15 @@ class MonitorPool(Module):
             basis. Its monitors are however deleted.
         """
         if name in self.monitors_:
+            shared = {
+                id(m)
+                for o, group in self.monitors_.items()
+                if o != name
+                for m in group.values()
+            }
             for monitor in self.monitors_[name].values():
-                monitor.deregister()
+                if id(monitor) not in shared:
+                    monitor.deregister()
             del self.monitors_[name]
 
         if name in self.observed_:
@@ -382,9 +389,13 @@ class MonitorPool(Module):
                 f"observable with name '{observed}'"
             )
 
-        # delete the monitor
-        self.monitors_[observed][monitor].deregister()
+        # delete the monitor, only deregistering if no other observable shares it
+        target = self.monitors_[observed][monitor]
         del self.monitors_[observed][monitor]
+        if not any(
+            m is target for group in self.monitors_.values() for m in group.values()
+        ):
+            target.deregister()
 
         # delete group if empty
         if not len(self.monitors_[observed]):
